@@ -16,12 +16,22 @@ def export_config(mods):
 
 
 # ---- splitting written text into lexical records --------------------------------
+# Whitespace of the file formats is ASCII whitespace (BracketReader!WSChars; export fields are separated by
+# tabs and blanks): a no-break space or an ideographic space is a character of a word.
+ASCII_WS = ' \t\n\r\x0b\x0c'
+_WS_RE = re.compile('[' + ASCII_WS + ']+')
+
+
+def ws_split(s):
+    return [x for x in _WS_RE.split(s) if x != '']
+
+
 def export_lines(text):
     out = []
     for ln in text.split('\n'):
-        if ln.strip() == '':
+        if ln.strip(ASCII_WS) == '':
             continue
-        f = ln.split()
+        f = ws_split(ln)
         w = f[0]
         wnum = int(w[1:]) if len(w) == 4 and w[0] == '#' and w[1:].isdigit() else -1
         out.append({'f': [ch(x) for x in f], 'n': [int(x) if x.isdigit() else -1 for x in f], 'wnum': wnum})
@@ -36,7 +46,7 @@ def bracket_tokens(text):
                 toks.append(ch(cur))
                 cur = ''
             toks.append([c])
-        elif c.isspace():
+        elif c in ASCII_WS:
             if cur:
                 toks.append(ch(cur))
                 cur = ''
@@ -53,7 +63,7 @@ def terminals_lines(text, pairs):
         lines = lines[:-1]
     out = []
     for ln in lines:
-        toks = ln.split()
+        toks = ws_split(ln)
         if pairs:
             out.append([[ch(t.rpartition('/')[0]), ch(t.rpartition('/')[2])] for t in toks])
         else:
@@ -242,8 +252,9 @@ def render_tiger_s(T, sid, rnd):
     out = ['<s id="s%d">' % sid, '<graph root="%s">' % ident[[i for i in par if par[i] is None][0]], '<terminals>']
     for i in sorted([i for i, x in enumerate(nodes) if x['tok']], key=lambda i: nodes[i]['y'][0]):
         a = nodes[i]['a']
-        out.append('<t %s />' % attrs([('id', ident[i]), ('word', un(a['word'])), ('lemma', un(a['lemma'])),
-                                       ('pos', un(a['lab'])), ('morph', un(a['morph']))]))
+        # lemma and morph are optional attributes: absent (['~~'] = None) means the attribute is not written
+        out.append('<t %s />' % attrs([('id', ident[i]), ('word', un(a['word'])), ('pos', un(a['lab']))] +
+                                      [(k_, un(a[k_])) for k_ in ('lemma', 'morph') if a[k_] != ['~~']]))
     out.append('</terminals>')
     out.append('<nonterminals>')
     nts = [i for i, x in enumerate(nodes) if not x['tok']]
@@ -263,7 +274,7 @@ def lex_tokens(text):
     """the lexical classes of a bracket file (mirror of the lexer's three character classes)"""
     toks, cur, kind = [], '', None
     for c in text:
-        k = 'P' if c in '()' else ('W' if c.isspace() else 'O')
+        k = 'P' if c in '()' else ('W' if c in ASCII_WS else 'O')
         if k == 'P':
             if cur:
                 toks.append(['WS' if kind == 'W' else 'TOKEN', ch(cur)])
@@ -382,6 +393,15 @@ def record_corpus_case(cid, Ts, fmt, opts, sep, mods, seed, origin='tlc'):
                        + '\n' for T in Ts)
         expsids = [firstid + k for k in range(len(Ts))]
     else:
+        if seed % 3 == 0:      # optional attributes missing on all / some tokens
+            import copy
+            Ts = copy.deepcopy(Ts)
+            for T in Ts:
+                for x in T['nodes']:
+                    if x['tok']:
+                        for k_ in ('lemma', 'morph'):
+                            if rnd.random() < 0.6:
+                                x['a'][k_] = ['~~']
         body = ''.join(render_tiger_s(T, s, rnd) for T, s in zip(Ts, sids))
         text = "<?xml version='1.0' encoding='utf-8'?>\n<corpus>\n<head/>\n<body>\n" + body + "</body>\n</corpus>\n"
         rec = tiger_record(text)
